@@ -88,6 +88,9 @@ type proxyCfg struct {
 	BackendLogout         bool
 	SkipClaimsFromProfile bool
 	CookieMinimal         bool
+	ExtraJwtIssuers []string // "issuerURL=audience" (suite tokens: a second fakeIDP acts as the extra issuer)
+	StaticKeys      string   // "" = OIDC discovery | "jwks" = SkipDiscovery + JwksURL | "pem" = SkipDiscovery + PublicKeyFiles
+	SkipIssuerCheck bool     // InsecureSkipIssuerVerification
 	ProviderType          string // "" = oidc; "keycloak-oidc"
 }
 
@@ -238,6 +241,21 @@ func newEnv(c *suiteCtx, cfg proxyCfg) (*testEnv, error) {
 	}
 	if cfg.UserIDClaim != "" {
 		pr.OIDCConfig.UserIDClaim = cfg.UserIDClaim
+	}
+	o.ExtraJwtIssuers = cfg.ExtraJwtIssuers
+	pr.OIDCConfig.InsecureSkipIssuerVerification = cfg.SkipIssuerCheck
+	if cfg.StaticKeys != "" {
+		pr.OIDCConfig.SkipDiscovery = true
+		pr.LoginURL = e.idp.url() + "/authorize"
+		pr.RedeemURL = e.idp.url() + "/token"
+		pr.ProfileURL = e.idp.url() + "/userinfo"
+		if cfg.StaticKeys == "pem" {
+			kp := filepath.Join(tmp, "idp-pub.pem")
+			os.WriteFile(kp, e.idp.publicKeyPEM(), 0o600)
+			pr.OIDCConfig.PublicKeyFiles = []string{kp}
+		} else {
+			pr.OIDCConfig.JwksURL = e.idp.url() + "/keys"
+		}
 	}
 	pr.CodeChallengeMethod = cfg.PKCE
 	pr.AllowedGroups = cfg.AllowedGroups
